@@ -15,7 +15,7 @@ RULE = ("random lint-clean DAGs (1-4 inputs, 1-7 gates, constants 0/1/x, optiona
 EXPLANATION = ("worklist model (orders explicit) proved to remove exactly the non-live removable nodes, keep survivors, be idempotent; "
                "model tied to Circuit.remove_unloaded by exact comparison of graph and returned list; liveness oracle on the implementation's result")
 SHARD = 60
-HASHSEEDS = {"quick": [0, 1], "thorough": [0, 1, 2, 3, 4, 5]}
+HASHSEEDS = {"quick": [0, 1], "thorough": [0, 1, 2, 3]}
 
 
 def fresh(names, base):
@@ -158,7 +158,7 @@ def handmade():
 
 
 def generate(rng, tier):
-    n = 230 if tier == "quick" else 2500
+    n = 230 if tier == "quick" else 1500
     return handmade() + [gen_case(rng, big=(i % 5 == 0)) for i in range(n)]
 
 
